@@ -224,6 +224,8 @@ def op_witness(prop, op, variant):
         run = getattr(ctx, "_run", None)
         if run is None:
             return None
+        if any(e[0] == "timeout" for e in ctx.ghost.events):
+            return None          # an environment choice the native fake reader does not replay (a reply later than a timeout)
         now = run["now"]
         inputs = {k: concretise(v, model) for k, v in ctx.inputs.items()}
         inputs["now"] = concretise(now, model) if now is not None else None
